@@ -57,8 +57,7 @@ for entry in MUTANTS:
         open(full, "w").write(src.replace(old, new))
         try:
             env = dict(os.environ)
-            if REPO != "/repo":
-                env["VERIF_EVIDENCE_DIR"] = scratch_evidence
+            env["VERIF_EVIDENCE_DIR"] = scratch_evidence  # never replace /verif/evidence with a run on a mutant
             out = subprocess.run([os.path.join(V, "vcheck"), prop], cwd=V, env=env, stdout=subprocess.PIPE, stderr=subprocess.STDOUT).stdout.decode("utf-8", "replace")
         finally:
             subprocess.run(["git", "-C", REPO, "checkout", "--", "."])
